@@ -268,7 +268,7 @@ TABLE_COUNTS = {"elements": {"elements_count"}, "value2enum": {"map_count"}, "en
 ALL_COUNTS = set().union(*TABLE_COUNTS.values())
 
 
-def r04_2(prog, cfg, rid="R04.2", slots=None, floor=None):
+def r04_2(prog, cfg, rid="R04.2", slots=None, floor=None, only=None):
     """Every subscript of a descriptor table (td->elements, specs->value2enum, specs->oms, ...) in code reachable from a
     decoder, free or print slot, whose index is not a constant and not made of descriptor fields only, is reached only
     through the bounded edge of an upper-bound comparison of that index (loop condition, range test with a failing
@@ -282,6 +282,8 @@ def r04_2(prog, cfg, rid="R04.2", slots=None, floor=None):
     exc = {(x["function"], x["key"]): x["reason"] for x in load_tables("c04").get("r04_2_exceptions", [])}
     for k in sorted(scope):
         f = prog.funcs[k]
+        if only is not None and not only(f):
+            continue
         params = {p["id"] for p in f.params}
         for b, i, e in f.events("subscript"):
             bt = e["basex"]["tree"]
